@@ -326,6 +326,26 @@ func c15Sender(c *engine.Ctx, cs c15Case) {
 		c.Violate("sender/build-error", errStr(err), cs)
 		return
 	}
+	if cs.KeyLen == 32 || cs.KeyLen == 33 {
+		// the application first tried settings that the setter refuses (for attributes the packet does not hold, and
+		// for ones it holds): a refused setting leaves no trace in what is authenticated and sent
+		ak := le.EapTypeData.(*eap.EapAkaPrime)
+		for _, bad := range []ref.AKAAttr{{T: ref.AtRES, V: univ.Pat(3, 1)}, {T: ref.AtRES, V: univ.Pat(17, 2)}, {T: ref.AtKDF, V: []byte{1}}, {T: ref.AtKDF, V: []byte{0, 1, 2}},
+			{T: ref.AtRAND, V: univ.Pat(15, 3)}, {T: ref.AtAUTN, V: univ.Pat(17, 4)}, {T: ref.AtMAC, V: univ.Pat(12, 5)}} {
+			present := false
+			for _, a := range cs.E.AKA {
+				present = present || a.T == bad.T
+			}
+			if present || (bad.T == ref.AtMAC && cs.Prior != 0) {
+				continue
+			}
+			if ak.SetAttr(eap.EapAkaPrimeAttrType(bad.T), bad.V) == nil {
+				// accepted: then it is part of the packet; C14 judges the setter, nothing to say here
+				le, _ = build(cs.Prior)
+				break
+			}
+		}
+	}
 	var mac, wire []byte
 	if pi := engine.Catch(func() {
 		mac, err = le.CalcEapAkaPrimeAtMAC(key)
